@@ -95,6 +95,11 @@ type x13Env struct {
 	jwtHS512        string
 
 	mapper *x13Mapper
+
+	// the hold armed by a client-gone request (c13_gone_test.go): every local server
+	// passes holdPoint first
+	holdMu sync.Mutex
+	hold   *x13Hold
 }
 
 // x13Mapper is the MuxMapper handed to traffic gates.  As in production (the
@@ -212,6 +217,9 @@ func x13NewEnv(tmp string) *x13Env {
 
 	// ---- local servers
 	e.backend = httptest.NewServer(http.HandlerFunc(func(w http.ResponseWriter, r *http.Request) {
+		if e.holdPoint(w, r, true) {
+			return
+		}
 		body, _ := io.ReadAll(r.Body)
 		switch {
 		case strings.HasPrefix(r.URL.Path, "/fail"):
@@ -234,11 +242,17 @@ func x13NewEnv(tmp string) *x13Env {
 		}
 	}))
 	e.introspect = httptest.NewServer(http.HandlerFunc(func(w http.ResponseWriter, r *http.Request) {
+		if e.holdPoint(w, r, false) {
+			return
+		}
 		io.Copy(io.Discard, r.Body)
 		w.Header().Set("Content-Type", "application/json")
 		w.Write([]byte(`{"active":true,"sub":"verif-user","scope":"read write","client_id":"c"}`))
 	}))
 	e.remote = httptest.NewServer(http.HandlerFunc(func(w http.ResponseWriter, r *http.Request) {
+		if e.holdPoint(w, r, false) {
+			return
+		}
 		body, _ := io.ReadAll(r.Body)
 		var v map[string]interface{}
 		if json.Unmarshal(body, &v) != nil {
